@@ -2,7 +2,7 @@
    suits) and a one-suit hand has five different ranks. *)
 From Coq Require Import Sorting.Permutation PeanoNat.
 From CKC Require Import Base.Prelude Base.Reflect Spec.Layout Spec.Poker.
-From CKC Require Import Proofs.CardFacts Proofs.BitFacts Proofs.FiveFacts.
+From CKC Require Import Proofs.CardBase Proofs.BitFacts Proofs.FiveFacts.
 Open Scope N_scope.
 
 Lemma layout_inj r s r' s' :
